@@ -133,8 +133,13 @@ impl Sink {
 
 /// Run `f` catching panics; the panic message is returned on failure. The default panic hook is
 /// silenced by `main`.
+thread_local! { pub static IN_CATCH: std::cell::Cell<u32> = const { std::cell::Cell::new(0) }; }
+
 pub fn catch<T>(f: impl FnOnce() -> T) -> Result<T, String> {
-    match std::panic::catch_unwind(std::panic::AssertUnwindSafe(f)) {
+    IN_CATCH.with(|c| c.set(c.get() + 1));
+    let r = std::panic::catch_unwind(std::panic::AssertUnwindSafe(f));
+    IN_CATCH.with(|c| c.set(c.get() - 1));
+    match r {
         Ok(v) => Ok(v),
         Err(e) => Err(if let Some(s) = e.downcast_ref::<&str>() {
             s.to_string()
